@@ -90,7 +90,22 @@ def run(tier):
                               case=dict(event=ev), replay=dict(harness="Trace_Pool", trace=os.path.basename(path))))
     ctx.log(f"locked pool: {len(traces)} multi-threaded executions, {nev} lock-ordered events accepted by Trace_Pool")
     # (3) ThreadSanitizer on the three clauses
+    # corpus for the thread-private clause: what the single-threaded checks feed the library, so that every path they reach
+    # (slow number paths, escapes, deep nesting, error paths, on-demand, merges) also runs concurrently on private documents
+    import p_text as T, p_numgen as G
+    crecs = T.gen_simple(ctx, "Gen_Tokens", dict(MaxTok=2 if q else 3, Junk="TRUE"), tag="Gen_Tokens_mt")
+    texts = [bytes(r["t"]) for r in crecs][:: (3 if q else 2)]
+    texts += [s.encode() for s in G.c04_inputs(ctx.rng, True)[:: (9 if q else 3)]]
+    texts += [b'{"a":' + s.encode() + b',"b":[' + s.encode() + b']}' for s in G.c04_inputs(ctx.rng, True)[4:: (37 if q else 11)]]
+    texts += [b'{"a":{"a":"x\\n\\u00e9","b":[1,2,{"c":null}]},"k":"' + b'y' * n + b'"}' for n in (0, 15, 16, 31, 32, 33, 64, 100)]
+    cpath = os.path.join(ctx.work, "mt_corpus.hex")
+    with open(cpath, "w") as f:
+        for t in texts:
+            f.write((t.hex() or "-") + "\n")
+    ctx.log(f"thread-private clause: corpus of {len(texts)} texts (token sequences, hard number spellings, nested documents)")
     progs = []
+    for k in range(2 if q else 6):
+        progs.append((tsn, ["corpus", 3 + k % 3, 1, ctx.seed + k, cpath], "thread-private documents (single-threaded corpora run concurrently)"))
     for k in range(3 if q else 12):
         progs.append((tlk, ["pool", 4 + k % 3, 300, ctx.seed + 100 + k, "/dev/null"], "shared locked pool"))
         progs.append((tsn, ["readers", 4 + k % 5, 3000, ctx.seed + k, 0], "shared read-only document"))
